@@ -128,6 +128,90 @@ def _explore_worker(args):
                                                         kinds=dict(stats['kinds'])), err=err)
 
 
+def launcher_test():
+    """The REAL worker loop of the server (bert_e.server.setup_bert_e starts it in a daemon thread) fed with one job
+    per kind of outcome - including exceptions with an empty message, bare assertion failures, KeyError() - followed by
+    a probe job: the worker must still be alive, every job must be in tasks_done with a status, the marker cleared.
+    Returns a list of problems (empty = fine)."""
+    import threading
+    import time as _t
+    from collections import deque
+    from queue import Queue
+    from unittest import mock
+    if REPO not in sys.path:
+        sys.path.insert(0, REPO)
+    from bert_e import server, exceptions as exc
+    from bert_e.bert_e import BertE
+    from bert_e.job import PullRequestJob
+    from bert_e.lib.settings_dict import SettingsDict
+
+    class Tmpl(exc.TemplateException):
+        pass
+
+    def raiser(e):
+        def f():
+            raise e
+        return f
+
+    def bare_assert():
+        assert False
+
+    outcomes = [('silent', raiser(exc.NothingToDo())), ('silent+text', raiser(exc.NothingToDo('x'))),
+                ('template', raiser(Tmpl.__new__(Tmpl))), ('internal', raiser(exc.InternalException('i'))),
+                ('jobfailure', raiser(exc.JobFailure('failed'))), ('arbitrary', raiser(ValueError('boom'))),
+                ('arbitrary-empty', raiser(ValueError())), ('keyerror-empty', raiser(KeyError())),
+                ('assert', bare_assert), ('stopiteration', raiser(StopIteration())),
+                ('multi-line', raiser(RuntimeError('line1\nline2'))), ('unicode', raiser(RuntimeError('\u00e9\u65e5'))),
+                ('returns', lambda: None)]
+
+    class TB(BertE):
+        def __init__(self, settings):
+            self.task_queue = Queue()
+            self.tasks_done = deque(maxlen=1000)
+            self.status = {}
+            self.settings = SettingsDict({'pull_request_base_url': 'u{pr_id}', 'commit_base_url': 'c{commit_id}',
+                                          'repository_host': 'mock', 'repository_owner': 'o', 'repository_slug': 's'})
+            self.project_repo = SimpleNamespace(full_name='o/s')
+            self.git_repo = object()
+
+        def process(self, job):
+            return job.vfn()
+
+    problems = []
+    before = {t.ident for t in threading.enumerate()}
+    with mock.patch.object(server, 'BertE', TB), \
+            mock.patch.object(server, 'setup_settings', lambda f: {'repository_host': 'mock', 'repository_owner': 'o',
+                                                                   'repository_slug': 's'}), \
+            mock.patch.object(server.logging, 'basicConfig', lambda **kw: None):
+        b = server.setup_bert_e('none.yml', False)
+    workers = [t for t in threading.enumerate() if t.ident not in before]
+    if len(workers) != 1:
+        return ['setup_bert_e did not start exactly one worker thread (%d)' % len(workers)]
+    wt = workers[0]
+    n = 0
+    for name, fn in outcomes:
+        for probe in (False, True):
+            n += 1
+            job = PullRequestJob(bert_e=b, pull_request=SimpleNamespace(id=n))
+            job.vfn = (lambda: None) if probe else fn
+            b.put_job(job)
+            t0 = _t.time()
+            while not job.done and _t.time() - t0 < 3.0 and wt.is_alive():
+                _t.sleep(0.005)
+            if not wt.is_alive():
+                problems.append('worker thread died after a job whose outcome was `%s`' % name)
+                return problems
+            if not job.done:
+                problems.append('job after outcome `%s` was never finished' % name)
+                return problems
+            _t.sleep(0.01)
+            if 'current job' in b.status:
+                problems.append('current-job marker not cleared after outcome `%s`' % name)
+            if job not in b.tasks_done:
+                problems.append('job with outcome `%s` not recorded in tasks_done' % name)
+    return problems
+
+
 def _validate(args):
     path, scratch = args
     vio = path + '.viol.json'
@@ -189,6 +273,14 @@ def check(tier, seed):
     rdir = os.path.join(ex_mod.VERIF, 'replays')
     os.makedirs(rdir, exist_ok=True)
     vs = []
+    import logging
+    logging.disable(logging.CRITICAL)
+    lprobs = launcher_test()
+    for i, pb in enumerate(lprobs):
+        p = os.path.join(rdir, 'C13_launcher_%d.json' % i)
+        json.dump(dict(problem=pb), open(p, 'w'))
+        vs.append(dict(sig=dict(clause='C13.worker_died' if 'died' in pb or 'never' in pb else 'C13.launcher',
+                                problem=pb), replay=p))
     seen = set()
     for (tid, n, clause) in viol:
         scn, rot, ev = alltr[tid]
@@ -220,7 +312,7 @@ def check(tier, seed):
         rule='all schedules with <= %d preemptions (cut at %d executions per scenario) of the real put_job / '
              'process_task at source-line granularity, %d scenarios x outcome rotations; distinct = event kinds observed'
              % (bound, limit, len(SCENARIOS[tier])),
-        model_checking=mc, scheduler_steps=steps, event_kinds=dict(kinds), conformance_divergences=len(div),
+        model_checking=mc, scheduler_steps=steps, real_worker_loop_outcomes=13, event_kinds=dict(kinds), conformance_divergences=len(div),
         exhaustive=False,
         explanation='Server.tla exhaustive (TLC); real executions validated by TraceServer.tla'),
         ['CPython line events are the scheduling points (a line is atomic here; the GIL could in principle switch inside '
@@ -228,5 +320,5 @@ def check(tier, seed):
          'Flask/webhook layer not in this check (C14 covers what gets enqueued)'],
         time.time() - t0, new)
     print('C13: Server.tla %s; %d real executions (%d scheduler steps) validated by TraceServer, %d violations, %d divergences'
-          % (', '.join('%s=%d states' % (m['cfg'], m['distinct']) for m in mc), execs, steps, len(viol), len(div)))
+          % (', '.join('%s=%d states' % (m['cfg'], m['distinct']) for m in mc), execs, steps, len(viol) + len(lprobs), len(div)))
     return 1 if new else 0
